@@ -90,59 +90,61 @@ structure LongSt where
   bits : Nat
   curbits : Nat
 
-/-- the `while` loop of `make_addition_chain_long`; `nd i` = i-th 64-bit digit of `n`. -/
+/-- top of an iteration: `if curbits <= 32 && nextword <= lastword { exp += (nd[nextword] as u128) << curbits; .. }`;
+`nd i` = i-th 64-bit digit of `n`. -/
+def longRefill (nd : Nat → Nat) (lastword : Nat) (s : LongSt) : Option LongSt :=
+  if s.curbits ≤ 32 ∧ s.nextword ≤ lastword then
+    if s.nextword ≥ 16 then none                          -- nd[nextword]
+    else
+      let e := s.exp + nd s.nextword * 2 ^ s.curbits       -- shift < 128, no bits lost
+      if e ≥ W128 then none
+      else some { s with exp := e, nextword := s.nextword + 1, curbits := s.curbits + 64 }
+  else some s
+
+/-- rest of an iteration: one opcode is written; `.inl ops` = the loop is left through `break` with
+`ops` written from here on, `.inr (op, s')` = opcode `op` written, continue in state `s'`. -/
+def longStep (cap nbits : Nat) (s : LongSt) : Option (List Int ⊕ (Int × LongSt)) :=
+  if s.idx ≥ cap then none                                  -- chain[idx] (every branch writes)
+  else if s.exp % 2 = 0 then
+    let t := min 60 (min (tz128 s.exp) s.curbits)
+    -- exp >>= tz; bits += tz; curbits -= tz; chain[idx] = 2 * tz as i8
+    match i8 (2 * asI8 t) with
+    | none => none
+    | some op =>
+      some (.inr (op, { s with exp := s.exp / 2 ^ t, bits := s.bits + t, curbits := s.curbits - t, idx := s.idx + 1 }))
+  else
+    let low := s.exp % 128
+    if low < 64 then
+      let e := s.exp - low
+      if e = 0 ∧ nbits < s.bits then none                   -- nbits - bits underflows
+      else if e = 0 ∧ nbits - s.bits ≤ 6 then some (.inl [asI8 low])
+      else if s.curbits = 0 then none                       -- curbits -= 1
+      else some (.inr (asI8 low, { s with exp := e / 2, bits := s.bits + 1, curbits := s.curbits - 1, idx := s.idx + 1 }))
+    else
+      match i8 (-(asI8 (128 - low))) with
+      | none => none
+      | some op =>
+        let e := s.exp + (128 - low)
+        if e ≥ W128 then none
+        else if s.curbits = 0 then none
+        else some (.inr (op, { s with exp := e / 2, bits := s.bits + 1, curbits := s.curbits - 1, idx := s.idx + 1 }))
+
+/-- the `while bits < nbits || exp > 0` loop of `make_addition_chain_long` -/
 def mkLongLoop (cap : Nat) (nd : Nat → Nat) (nbits lastword : Nat) : Nat → LongSt → Option (List Int)
   | 0, _ => none
   | f + 1, s =>
     if ¬ (s.bits < nbits ∨ s.exp > 0) then some []
     else
-      -- refill
-      let s1? : Option LongSt :=
-        if s.curbits ≤ 32 ∧ s.nextword ≤ lastword then
-          if s.nextword ≥ 16 then none                          -- nd[nextword]
-          else
-            let e := s.exp + nd s.nextword * 2 ^ s.curbits       -- shift < 128, no bits lost
-            if e ≥ W128 then none
-            else some { s with exp := e, nextword := s.nextword + 1, curbits := s.curbits + 64 }
-        else some s
-      match s1? with
+      match longRefill nd lastword s with
       | none => none
-      | some s =>
-        if s.idx ≥ cap then none                                  -- chain[idx] (every branch writes)
-        else if s.exp % 2 = 0 then
-          let t := min 60 (min (tz128 s.exp) s.curbits)
-          -- exp >>= tz; bits += tz; curbits -= tz; chain[idx] = 2 * tz as i8
-          match i8 (2 * asI8 t) with
+      | some s1 =>
+        match longStep cap nbits s1 with
+        | none => none
+        | some (.inl ops) => some ops
+        | some (.inr (op, s2)) =>
+          match mkLongLoop cap nd nbits lastword f s2 with
           | none => none
-          | some op =>
-            match mkLongLoop cap nd nbits lastword f
-                { s with exp := s.exp / 2 ^ t, bits := s.bits + t, curbits := s.curbits - t, idx := s.idx + 1 } with
-            | none => none
-            | some r => some (op :: r)
-        else
-          let low := s.exp % 128
-          if low < 64 then
-            let e := s.exp - low
-            if e = 0 ∧ nbits < s.bits then none                   -- nbits - bits underflows
-            else if e = 0 ∧ nbits - s.bits ≤ 6 then some [asI8 low]
-            else if s.curbits = 0 then none                       -- curbits -= 1
-            else
-              match mkLongLoop cap nd nbits lastword f
-                  { s with exp := e / 2, bits := s.bits + 1, curbits := s.curbits - 1, idx := s.idx + 1 } with
-              | none => none
-              | some r => some (asI8 low :: r)
-          else
-            match i8 (-(asI8 (128 - low))) with
-            | none => none
-            | some op =>
-              let e := s.exp + (128 - low)
-              if e ≥ W128 then none
-              else if s.curbits = 0 then none
-              else
-                match mkLongLoop cap nd nbits lastword f
-                    { s with exp := e / 2, bits := s.bits + 1, curbits := s.curbits - 1, idx := s.idx + 1 } with
-                | none => none
-                | some r => some (op :: r)
+          | some r => some (op :: r)
 
 /-- `make_addition_chain_long(&mut chain, n)` with a buffer of `cap` opcodes, `n < 2^1024`. -/
 def makeChainLongCap (cap n : Nat) : Option (List Int) :=
